@@ -18,11 +18,40 @@ def parseOp (j : Json) : Except String Op := do
   | "exists" => pure (.scope (← nat! a[1]!) (.exists_ (← str! a[2]!)))
   | t => throw s!"bad op {t}"
 
+/-- `MethodScope.AddVar` on a named variable of a named type `q.T` (or of a replacement type) is a composition
+of the machine's own operations (`Gen/Data.addVar`): register the import, make its qualifier visible in the
+scope, make the type string visible (not for a replacement), suggest the variable's name -/
+def stepJson (s : St) (j : Json) : Except String (St × String) := do
+  let a ← arr! j
+  let tag ← str! a[0]!
+  if tag == "addvar" then
+    let k ← nat! a[1]!
+    let vn ← str! a[2]!
+    let pn ← str! a[3]!
+    let pp ← str! a[4]!
+    let tn ← str! a[5]!
+    let repl := (a[6]!.getBool?).toOption.getD false
+    if (s.scopes[k]?).isNone then pure (s, "<noscope>") else
+    let (s1, q) := s.step (.imp pn pp)
+    let qual := if q == "<nil>" then "" else q
+    let (s2, _) := s1.step (.scope k (.add qual))
+    let ts := if qual == "" then tn else qual ++ "." ++ tn
+    let s3 := if repl then s2 else (s2.step (.scope k (.add ts))).1
+    let (s4, nm) := s3.step (.scope k (.suggest vn))
+    pure (s4, nm ++ "|" ++ ts)
+  else
+    let op ← parseOp j
+    pure (s.step op)
+
 def handle (input : Json) : Except String Json := do
   let dst ← fldStr input "dst"
   let inpkg ← fldBool input "inpkg"
-  let ops ← (← fldArr input "ops").toList.mapM parseOp
-  let (_, outs) := (St.init dst inpkg).run ops
-  pure (jstrs outs)
+  let mut s := St.init dst inpkg
+  let mut outs : Array String := #[]
+  for j in (← fldArr input "ops") do
+    let (s', o) ← stepJson s j
+    s := s'
+    outs := outs.push o
+  pure (jstrs outs.toList)
 
 end Driver.C15
